@@ -78,11 +78,21 @@ func NewModules() *Modules {
 // e.g., foo.yang is named foo).  An error is returned if the file is not
 // found or there was an error parsing the file.
 func (ms *Modules) Read(name string) error {
+	npath := len(ms.Path)
 	name, data, err := ms.findFile(name)
 	if err != nil {
 		return err
 	}
-	return ms.Parse(data, name)
+	if err := ms.Parse(data, name); err != nil {
+		// A text that is rejected leaves no trace: forget the
+		// directory that findFile added to Path on its behalf.
+		for _, p := range ms.Path[npath:] {
+			delete(ms.pathMap, p)
+		}
+		ms.Path = ms.Path[:npath]
+		return err
+	}
+	return nil
 }
 
 // Parse parses data as YANG source and adds it to ms.  The name should reflect
